@@ -300,6 +300,7 @@ func (df *DataFile) readToBuf(blockID uint32, offset uint32, buf *bytebufferpool
 	block := getBuf()
 	defer putBuf(block)
 	fileSize := df.Size()
+	seenChunk := false
 	for {
 		// 当前 block 绝对偏移量
 		off := int64(blockID) * blockSize
@@ -320,6 +321,11 @@ func (df *DataFile) readToBuf(blockID uint32, offset uint32, buf *bytebufferpool
 		if err != nil {
 			return err
 		}
+		// 校验 chunk 类型顺序: 记录以 Full / First 开始, 其后只能是 Middle / Last
+		if first := len(buf.B) == 0 && !seenChunk; first != (chunkType == Full || chunkType == First) {
+			return ErrInvalidCRC
+		}
+		seenChunk = true
 		buf.B = append(buf.B, data...)
 		// last chunk
 		if chunkType == Full || chunkType == Last {
@@ -411,6 +417,10 @@ func (reader *DataReader) next() ([]byte, *DataPos, error) {
 		data, chunkType, err := DecodeChunk(reader.blockBuf[reader.offset:size])
 		if err != nil {
 			return nil, nil, err
+		}
+		// 校验 chunk 类型顺序: 记录以 Full / First 开始, 其后只能是 Middle / Last
+		if (cnt == 0) != (chunkType == Full || chunkType == First) {
+			return nil, nil, ErrInvalidCRC
 		}
 		res = append(res, data...)
 		cnt++
